@@ -413,8 +413,9 @@ def c15():
     return {
         "props_file": "Props/C15.v",
         "theorems": ["C15_nonempty_refused", "C15_overwrite", "C15_overwrite_never_refuses",
-                     "C15_run_config_total", "C15_refine_options", "C15_plan_fits_all_files", "C15_validate_table"],
-        "model_files": ["Model/Cli.v", "Model/ObsCli.v"],
+                     "C15_run_config_total", "C15_refine_options", "C15_plan_fits_all_files", "C15_validate_table",
+                     "C15_tree_saved_last", "C15_source_tie_refine_options", "C15_source_tie_plan"],
+        "model_files": ["Model/Cli.v", "Model/ObsCli.v", "Gen/GCli.v", "Proofs/GenTieCli.v"],
         "suites": [suite_cli.suite_cli],
         "search": suite_cli.search_c15,
         "replay": suite_cli.replay_c15,
